@@ -556,7 +556,7 @@ fn build_chains(env: &Env) -> (Chain, Chain) {
 pub(crate) fn run(opts: &Opts, report: &mut Report) {
     let thorough = opts.thorough();
     // (start with fetches in flight, max depth)
-    let configs: Vec<(bool, usize)> = if thorough { vec![(false, 6), (true, 5)] } else { vec![(false, 3), (true, 3)] };
+    let configs: Vec<(bool, usize)> = if thorough { vec![(false, 4), (true, 4)] } else { vec![(false, 3), (true, 3)] };
     const SHARDS: usize = 16;
     let n_items = configs.len() * SHARDS;
     let worker = crate::verif::props::shard::run("C16", opts, report, n_items, 16, |item, report| {
@@ -638,6 +638,6 @@ pub(crate) fn run(opts: &Opts, report: &mut Report) {
     report.set("distinct_nontrivial", json!(report.get("states")));
     report.set("traces_validated_against_impl", json!(report.get("replays")));
     report.set("rule", json!("state = event list replayed on the real client (fingerprint: store + peers + pending messages + world position + statuses seen + budgets); transitions = (state, enabled event) pairs executed; every state: status-step legality and truthfulness of committed answers; every distinct state: honest continuation (6 rounds of deliveries, timers and repeated calls)"));
-    report.set("bounds", json!({"depth": if thorough { "6 (idle start), 5 (fetches in flight)" } else { "3" }, "budgets": "calls <= 3, FETCH ticks <= 2, REFRESH ticks <= 2, disconnect <= 1, connect <= 1, silent switch <= 1, fork <= 1, bogus proof <= 1"}));
+    report.set("bounds", json!({"depth": if thorough { "4" } else { "3" }, "budgets": "calls <= 3, FETCH ticks <= 2, REFRESH ticks <= 2, disconnect <= 1, connect <= 1, silent switch <= 1, fork <= 1, bogus proof <= 1"}));
     report.assume("honest peers (what varies is timing, availability and the branch they follow); dummy PoW");
 }
